@@ -302,6 +302,9 @@ def known_signature(k, engine, case, model, spec, impl):
 
 
 ENGINES = [{"name": "c13", "gen": gen, "corpus": corpus, "nontrivial": nontrivial, "classify": classify, "shards": 8}]
+from props.e2e_common import e2e_engine, E2E_TRUSTED
+ENGINES.append(e2e_engine("C13"))   # reloads (ops L / H) of a real running pipeline: sessions and RIB contents survive, later routers are served
+TRUSTED_BASE.append(E2E_TRUSTED)
 EXTRAS = []
 
 LEVEL_TEXT = ("Theorems over all abstract TOML documents and all histories of loads of the manager model (accepts exactly the valid "
